@@ -49,14 +49,19 @@ pub fn planar_disk(rng: &mut Rng) -> Disk {
 }
 
 fn planar_disk_any(rng: &mut Rng) -> Disk {
-    let nx = rng.int(3, 9) as usize;
-    let ny = rng.int(3, 9) as usize;
+    // gently bowed plates (a large-radius arc sampled finely: the boundary turns by 1e-6 .. 5e-5 rad per
+    // vertex) besides the straight-sided and the jittered ones
+    let bowed = rng.chance(0.25);
+    let nx = if bowed { rng.int(6, 16) as usize } else { rng.int(3, 9) as usize };
+    let ny = if bowed { rng.int(3, 8) as usize } else { rng.int(3, 9) as usize };
     let h = *rng.pick(&[1.0, 0.1, 7.0]);
-    let jitter = *rng.pick(&[0.0, 0.15, 0.3]);
+    let jitter = if bowed { 0.0 } else { *rng.pick(&[0.0, 0.15, 0.3]) };
+    let kappa = if bowed { 10f64.powf(rng.range(-6.0, -4.3)) } else { 0.0 };
     let mut grid: Vec<Point2> = vec![];
     for j in 0..ny {
         for i in 0..nx {
-            grid.push(Point2::new(h * (i as f64 + rng.range(-jitter, jitter)), h * (j as f64 + rng.range(-jitter, jitter))));
+            let u = i as f64 - (nx - 1) as f64 / 2.0;
+            grid.push(Point2::new(h * (i as f64 + rng.range(-jitter, jitter)), h * (j as f64 + rng.range(-jitter, jitter) + 0.5 * kappa * u * u)));
         }
     }
     // notch: drop the cells of a corner block (keeps a disk, makes the outline non-convex)
